@@ -18,7 +18,7 @@ def _judge_drift(drift, run_cases, raw=None):
 
 
 PROP = dict(
-    modules=["CG.Props.C12", "CG.Props.C12conc"],
+    modules=["CG.Props.C12", "CG.Props.C12conc", "CG.Props.C12wire"],
     judge_drift=_judge_drift,
     required_theorems=["C12_handshake_order", "C12_connected_once_before_any_message", "C12_each_message_once_in_order",
                        "C12_deliveries_are_arrivals_in_order", "C12_ping_pong_same_nonce", "C12_state_reflects_announcements",
@@ -27,6 +27,7 @@ PROP = dict(
                        "C12_send_after_disconnect_is_error", "C12_local_disconnect_linearised", "C12_bytes_lift_to_events",
                        "C12_corrupt_bytes_lift_to_garbage", "C12_model_matches_reference", "C12_reference_defined",
                        "C12_early_local_disconnect_witness", "C12_tables_wf",
+                       "C12_wire_whole_frames", "C12_wire_finished", "C12_wire_holder_moves", "C12_wire_unlocked_interleaves",
                        "C12_conc_disconnected_at_most_once", "C12_conc_event_implies_flag_cleared", "C12_conc_deliveries_in_order",
                        "C12_conc_nothing_after_remote_disconnect", "C12_conc_at_most_one_late_delivery", "C12_conc_late_delivery_witness",
                        "C12_conc_send_after_disconnect_is_error", "C12_conc_local_calls_never_block", "C12_conc_refines_sequential_model"],
@@ -99,7 +100,10 @@ CLAIM = dict(
          "threads and programs: at most one disconnected event; deliveries in order, each at most once; if no local thread calls "
          "disconnect() and every sent message is serialisable, NOTHING is delivered after the disconnected event; with local "
          "disconnect() racing, at most ONE message is (bound attained: kernel-checked witness, replayed on the real Peer); a send "
-         "started after the flag was cleared is refused at once; a local call waits only for the tcp_writer mutex whose holder can "
+         "started after the flag was cleared is refused at once; WIRE LEVEL (CG.Props.C12wire): with a send being many write calls "
+         "under the mutex, for any threads, messages, chunkings and schedules the wire is a concatenation of whole messages plus the "
+         "holder's partial one (kernel-checked witness that it is not without the mutex; tied to the code by concurrent bursts whose "
+         "frames the scripted node verifies); a local call waits only for the tcp_writer mutex whose holder can "
          "always release it; the sequential model above IS this model under atomic schedules (refinement theorem, outputs equal for every event list). Tied to the code by ~400 real loopback sessions per run steered through the H3 sync points of "
          "peer.rs, one model step per release, log compared exactly.",
     note="Concurrency of the connected phase is modelled and proved (C12conc) under: the remote half-closes and keeps reading (a "
